@@ -5,6 +5,7 @@ CONSTANTS
   ArgVals <- QuickArgs
   StepVals = {1, 2, 3}
   Fuel = 7
+  OneQ = TRUE
   MaxAbs = 8
 INVARIANTS MachineIsSeqIters SchemeCovers
 CONSTRAINT Emit
